@@ -696,12 +696,12 @@ class DiscreteReward(Rewards):
 
     def __call__(self, action: Action) -> float:
         if isinstance(self._state,dict):
-            comp,shape = extract_shape(action,next(iter(self._state.keys())))
+            comp,shape = extract_shape(action,next(iter(self._state.keys()),None))
             value = self._state.get(comp,self._default)
             return create_shape(value,shape)
         else:
             actions,rewards = self._state
-            comp,shape = extract_shape(action,actions[0])
+            comp,shape = extract_shape(action,actions[0] if len(actions) else None)
             value = rewards[actions.index(comp)] if comp in actions else self._default
             return create_shape(value,shape)
 
